@@ -25,7 +25,7 @@ ASSUMPTIONS = [
     "Every record is internally consistently wrapped (all lines but the last have the record's width), as faidx requires.",
 ]
 REQUIRED_CLASSES = ["multi-line", "last-line-full", "last-line-short", "single-line", "description", "marker-character-in-description", "genome-route-3+-intervals", "supplied-index-without-final-newline", "interval-crosses-break", "interval-ends-at-break",
-                    "interval-starts-at-break", "supplied-index", "library-index", "fast-path-label-order-differs", "no-final-newline"]
+                    "interval-starts-at-break", "supplied-index", "library-index", "fast-path-label-order-differs", "no-final-newline", "index-written-by-genome-with-underscore-names"]
 BOUNDS = {"quick": "exhaustive: 1 record L<=7 W<=8 and 2 records L<=4 W<=5, every interval; 450 sampled files; one 5.6 MB file (2 read chunks of create_index) and one 16 MB file (4 read chunks)",
           "thorough": "exhaustive: N<=2 L<=7 W<=8 and N=3 L<=4 W<=4; 2500 sampled files; one 5.2 MB file"}
 BUDGET_S = {"quick": 200, "thorough": 1500}
@@ -61,6 +61,8 @@ def classify(case):
     nontrivial = False
     if case["index"] == "supplied" and case.get("fai_no_final_newline"):
         cl.append("supplied-index-without-final-newline")
+    if case["index"] == "library-via-genome" and any("_" in r[0] for r in case["records"]):
+        cl.append("index-written-by-genome-with-underscore-names")
     if case.get("genome_route") and len(case.get("intervals") or []) >= 3:
         cl.append("genome-route-3+-intervals")
     for name, desc, seq, w in case["records"]:
@@ -108,11 +110,14 @@ def check(case, stats=None):
                     # (a supplied index may or may not end with a newline)
                     f.write("\n".join(f"{m['name']}\t{m['rlen']}\t{m['offset']}\t{m['lenc']}\t{m['lenb']}" for m in model)
                             + ("" if case.get("fai_no_final_newline") else "\n"))
+            if case["index"] == "library-via-genome":
+                # the genome object is the first to touch the file and writes the index; every later user of the file reads that index
+                bnp.Genome.from_file(path)
             fa = bnp.open_indexed(path)
         except Exception as e:
             return [Failure(f"C17:open-raised:{case['index']}:{type(e).__name__}:{_where(e)}", {"error": repr(e)[:300]})]
         try:
-            if case["index"] == "library":
+            if case["index"] in ("library", "library-via-genome"):
                 rows = [l.rstrip("\n").split("\t") for l in open(path + ".fai")]
                 if len(rows) != len(model):
                     return [Failure("C17:fai-record-count", {"expected": len(model), "actual": len(rows)})]
@@ -217,7 +222,7 @@ def sampled_case(draw, Lmax, Wmax):
         a = min(a, L - 1)
         b = draw(st.one_of(st.sampled_from([p for p in breaks if p > a] or [L]), st.integers(a + 1, L)))
         ivs.append([ri, a, b])
-    case = {"records": recs, "intervals": ivs, "index": draw(st.sampled_from(["library", "supplied"])), "final_nl": draw(st.booleans()),
+    case = {"records": recs, "intervals": ivs, "index": draw(st.sampled_from(["library", "supplied", "library-via-genome"])), "final_nl": draw(st.booleans()),
             "genome_route": draw(st.booleans()), "fai_no_final_newline": draw(st.booleans())}
     if n > 1:
         case["label_order"] = draw(st.permutations(list(range(n))))
